@@ -56,7 +56,7 @@ def oracle(k, w):
 def run(ck):
     if THEOREMS:
         ck.prove('C13', THEOREMS)
-    fails, mism = wk.campaign(ck, ck.scale(40, 1200), oracle, gen_kw={'with_actrl': True, 'allow_dangling': False}, coq_lanes=1, coq_every=2, stress_every=3, line_level=True)
+    fails, mism = wk.campaign(ck, ck.scale(40, 1200), oracle, gen_kw={'with_actrl': True, 'allow_dangling': False, 'strip_prob': 0.3}, coq_lanes=1, coq_every=2, stress_every=3, line_level=True)
     ck.rule('random circuits x delays x capacities (incl. overflowing) x capture times (incl. ties with entries) x accumulation-control '
             'tables (shared accumulators, weights 0..3); oracle: recount from the stored waveforms (CPU and GPU capture), rerun with capacity 64')
     wk.report(ck, fails, mism, 'wavesim:capture', 'wave_sim.WaveSim capture/abuf')
